@@ -77,6 +77,8 @@ func TestC04Controlled(t *testing.T) {
 	p.cancelCallerPct = 35 // abandoned blocking reports: the next report must still get ITS OWN answer
 	p.blockPct = 60
 	p.wRegister, p.wUnregister = 2, 1
+	p.slowPct, p.wReleaseCB = 15, 1
+	p.shutdownPct = 20 // the monitor exits with error events still queued behind a slow callback: they are still delivered
 	vrt.Check(t, vrt.Prop[Scenario]{
 		ID: "C04", Name: "controlled",
 		Rule: "histories of 1..14 operations whose stacked results alternate between valid and invalid (negative Limit), blocking and not, under every combination of SkipInitialVerification / DelayInitialVerification, with the monitor parked inside Verify, right after the store or right before it answers while readers view / register and while some blocking callers give up (context cancelled in the window); " +
@@ -127,6 +129,7 @@ func TestC07Controlled(t *testing.T) {
 	p.holdPct = 40
 	p.cancelCallerPct = 70
 	p.wRegister, p.wUnregister = 1, 0
+	p.wDone = 1 // a watcher finishes while the others keep reporting: their blocking reports are still answered
 	vrt.Check(t, vrt.Prop[Scenario]{
 		ID: "C07", Name: "controlled",
 		Rule: "blocking and non-blocking reports from 2..3 sources with the caller's context live, cancelled before submission, or cancelled while the monitor is parked inside Verify / after the store / right before it answers the reply channel; " +
